@@ -282,7 +282,7 @@ OnBounded(o, ln) ==
       o2 == SFlag(o1, ln.max_it > 0 => ln.it <= ln.max_it, "Unbounded", "iterations")
   IN SFlag(o2, ln.sorted, "NotSorted", "bounded")
 
-SimObsStep(o, ln) ==
+SimObsStep0(o, ln) ==
   CASE ln.k = "act"      -> OnAct(o, ln)
     [] ln.k = "ev"       -> OnEv(o, ln)
     [] ln.k = "fired"    -> OnFired(o, ln)
@@ -296,14 +296,30 @@ SimObsStep(o, ln) ==
     [] ln.k = "panic"    -> SFlag(o, FALSE, "Panic", "")
     [] OTHER -> o                       \* pick / blk / repl / recv / agg: mechanism diagnostics
 
+\* large-time family (times written in minutes): a record carrying a time off the grid of the
+\* inputs. The clause names what kind of time it was.
+OffGridClause(ln) ==
+  IF ln.k = "ev"
+  THEN (CASE ln.e \in {"TunnelRecv", "NormalRecv", "PaddingRecv", "TunnelSent", "NormalSent"} -> "OffGridPacket"
+          [] ln.e = "BlockingEnd" -> "OffGridBlocking"
+          [] ln.e \in {"PaddingSent", "BlockingBegin"} -> "OffGridAction"
+          [] OTHER -> "OffGridTimer")
+  ELSE IF ln.k \in {"blk", "agg", "aggpop"} THEN "OffGridBlocking"
+  ELSE IF ln.k = "recv" THEN "OffGridPacket"
+  ELSE IF ln.k = "act" THEN "OffGridAction"
+  ELSE "OffGridOther"
+
+SimObsStep(o, ln) ==
+  IF "og" \in DOMAIN ln /\ ln.og THEN SimObsStep0(SFlag(o, FALSE, OffGridClause(ln), ""), ln) ELSE SimObsStep0(o, ln)
+
 \* clause -> property
 ClauseProperty(c) ==
   CASE c \in {"TraceNotReproduced"} -> "C14"
-    [] c \in {"RecvWithoutSend", "NormalCreated", "NormalCountExact", "NotSorted"} -> "C15"
-    [] c \in {"Leak", "BlockingEndUnexpected", "BlockingEndMissed", "BlockingEndBeforeBegin"} -> "C16"
-    [] c \in {"PaddingSentCause", "BlockingBeginCause", "ActionMissed", "FiredWithoutCause", "ReportMissing"} -> "C17"
+    [] c \in {"RecvWithoutSend", "NormalCreated", "NormalCountExact", "NotSorted", "OffGridPacket"} -> "C15"
+    [] c \in {"Leak", "BlockingEndUnexpected", "BlockingEndMissed", "BlockingEndBeforeBegin", "OffGridBlocking"} -> "C16"
+    [] c \in {"PaddingSentCause", "BlockingBeginCause", "ActionMissed", "FiredWithoutCause", "ReportMissing", "OffGridAction"} -> "C17"
     [] c \in {"TimerBeginUnexpected", "TimerBeginMissing", "TimerEndUnexpected", "TimerMissed",
-              "TimerFiredWithoutCause", "TimerEndMissing"} -> "C18"
-    [] c \in {"TimeBackwards", "NotReproducible", "NotProjection", "Unbounded", "Panic"} -> "C19"
+              "TimerFiredWithoutCause", "TimerEndMissing", "OffGridTimer"} -> "C18"
+    [] c \in {"TimeBackwards", "NotReproducible", "NotProjection", "Unbounded", "Panic", "OffGridOther"} -> "C19"
     [] OTHER -> "LOG"
 =============================================================================
